@@ -160,7 +160,7 @@ func printReport(rep *symgo.RunReport) {
 			break
 		}
 		b, _ := json.Marshal(r.Witness)
-		fmt.Printf("  [%s] %s\n     witness %s choices %v\n", r.Outcome, r.Msg, b, r.HChoices)
+		fmt.Printf("  [%s] %s\n     witness %s choices %v obs %v\n", r.Outcome, r.Msg, b, r.HChoices, r.Obs)
 		if r.Stack != "" {
 			fmt.Println(r.Stack)
 		}
